@@ -129,4 +129,136 @@ pub fn check_hash(name: &[u8]) -> Result<(), String> {
     Ok(())
 }
 
+/// C14: the first two notes yielded by NoteIterator against a reference walk of the record layout
+/// (12-byte header of three 32-bit words for both classes, name, padding to `align`, descriptor, padding)
+pub fn check_c14(buf: &[u8], align_sel: u8, elf64: bool, little: bool) -> Result<(), String> {
+    use elf::note::{Note, NoteIterator};
+    let align: usize = [0usize, 1, 2, 4, 8, 16, 3, 4][(align_sel % 8) as usize];
+    let class = if elf64 { Class::ELF64 } else { Class::ELF32 };
+    let e = if little { AnyEndian::Little } else { AnyEndian::Big };
+    fn pad(x: u64, a: u64) -> u64 { if x % a > 0 { x + (a - x % a) } else { x } }
+    // -> (next offset, n_type, name range, desc range)
+    fn ref_note(little: bool, a: usize, d: &[u8], off: u64) -> Option<(u64, u64, (usize, usize), (usize, usize))> {
+        let len = d.len() as u64;
+        if a == 0 || d.is_empty() || off + 12 > len { return None; }
+        let o = off as usize;
+        let namesz = uval(little, &d[o..o + 4]); let descsz = uval(little, &d[o + 4..o + 8]); let ty = uval(little, &d[o + 8..o + 12]);
+        let name_end = off + 12 + namesz; if name_end > len { return None; }
+        let ds = pad(name_end, a as u64); let de = ds + descsz; if de > len { return None; }
+        let next = pad(de, a as u64);
+        let name = &d[o + 12..name_end as usize];
+        if name == b"GNU\0" && ty == 1 && descsz < 16 { return None; }
+        Some((next, ty, (o + 12, name_end as usize), (ds as usize, de as usize)))
+    }
+    let mut it = NoteIterator::new(e, class, align, buf);
+    let mut off: u64 = 0;
+    for k in 0..2 {
+        let want = ref_note(little, align, buf, off);
+        let got = it.next();
+        match (got, want) {
+            (None, None) => return Ok(()),
+            (Some(_), None) => fail!("note #{}: the iterator yields a note at offset {} where no whole record fits (align {})", k, off, align),
+            (None, Some(_)) => fail!("note #{}: the iterator stops at offset {} although a whole record fits there (align {})", k, off, align),
+            (Some(n), Some((next, ty, (ns, ne), (ds, de)))) => {
+                let name = &buf[ns..ne]; let desc = &buf[ds..de];
+                match n {
+                    Note::GnuAbiTag(t) => {
+                        if !(name == b"GNU\0" && ty == 1) { fail!("note #{}: typed as ABI tag but name/type are {:?}/{}", k, name, ty); }
+                        let w = |i: usize| uval(little, &desc[4 * i..4 * i + 4]) as u32;
+                        if t.os != w(0) || t.major != w(1) || t.minor != w(2) || t.subminor != w(3) { fail!("note #{}: ABI tag words differ from the descriptor bytes", k); }
+                    }
+                    Note::GnuBuildId(b) => {
+                        if !(name == b"GNU\0" && ty == 3) { fail!("note #{}: typed as build id but name/type are {:?}/{}", k, name, ty); }
+                        if b.0 != desc { fail!("note #{}: build id bytes {:?} != descriptor bytes {:?}", k, b.0, desc); }
+                    }
+                    Note::Unknown(a) => {
+                        if name == b"GNU\0" && (ty == 1 || ty == 3) { fail!("note #{}: a GNU note of type {} was not returned in its typed form", k, ty); }
+                        if a.n_type != ty || a.name != name || a.desc != desc { fail!("note #{}: (type, name, desc) = ({}, {:?}, {:?}) expected ({}, {:?}, {:?})", k, a.n_type, a.name, a.desc, ty, name, desc); }
+                    }
+                }
+                off = next;
+            }
+        }
+    }
+    Ok(())
+}
+
+/// C03: ElfBytes::section_data / segment_data return exactly the byte range the (caller-supplied) header designates, over an
+/// 80-byte ELF64/LE file (64-byte header without tables + 16 payload bytes)
+pub fn check_c03_range(off: u64, size: u64, memsz: u64, nobits: bool) -> Result<(), String> {
+    let mut file = [0u8; 80];
+    file[..8].copy_from_slice(&[0x7f, b'E', b'L', b'F', 2, 1, 1, 0]);
+    file[16] = 2; file[18] = 62; file[20] = 1; file[52] = 64; file[54] = 56; file[58] = 64;
+    for i in 64..80 { file[i] = i as u8; }
+    let eb = match elf::ElfBytes::<AnyEndian>::minimal_parse(&file) { Ok(e) => e, Err(_) => fail!("minimal_parse rejected a header-only ELF64 file") };
+    let want: Option<(usize, usize)> = off.checked_add(size).and_then(|e| if e <= 80 { Some((off as usize, e as usize)) } else { None });
+    let sh = elf::section::SectionHeader { sh_name: 0, sh_type: if nobits { 8 } else { 1 }, sh_flags: 0, sh_addr: 0, sh_offset: off, sh_size: size, sh_link: 0, sh_info: 0, sh_addralign: 0, sh_entsize: 0 };
+    match eb.section_data(&sh) {
+        Ok((d, c)) => {
+            if c.is_some() { fail!("section_data returned a compression header for an uncompressed section"); }
+            if nobits { if !d.is_empty() { fail!("section_data of a SHT_NOBITS section is not empty"); } }
+            else { match want { Some((s, e)) => if d != &file[s..e] { fail!("section_data returned {:?}, the header designates file[{}..{}]", d, s, e); },
+                                None => fail!("section_data is Ok although [{}, {}+{}) does not lie inside the 80-byte file", off, off, size) } }
+        }
+        Err(_) => if nobits || want.is_some() { fail!("section_data is Err although the designated range [{}, {}+{}) lies inside the file (nobits={})", off, off, size, nobits); },
+    }
+    let ph = elf::segment::ProgramHeader { p_type: 1, p_offset: off, p_vaddr: 0, p_paddr: 0, p_filesz: size, p_memsz: memsz, p_flags: 0, p_align: 0 };
+    match (eb.segment_data(&ph), want) {
+        (Ok(d), Some((s, e))) => if d != &file[s..e] { fail!("segment_data returned {} bytes, the header designates file[{}..{}] (p_memsz = {})", d.len(), s, e, memsz); },
+        (Err(_), None) => {}
+        (Ok(d), None) => fail!("segment_data is Ok ({} bytes) although [{}, {}+{}) does not lie inside the 80-byte file (p_memsz = {})", d.len(), off, off, size, memsz),
+        (Err(_), Some((s, e))) => fail!("segment_data is Err although file[{}..{}] lies inside the file", s, e),
+    }
+    Ok(())
+}
+
+/// C13/C16: the records yielded by VerNeedIterator / VerDefIterator (and the first auxiliary record of each) against a
+/// reference walk: record at the cursor, aux chain at record start + vn_aux/vd_aux with the record's count, cursor follows
+/// vn_next/vd_next, count decremented and forced to 0 on a zero link; at most `count` records, cursor never moves back
+pub fn check_c13_iter(buf: &[u8], count: u8, start: u8, little: bool, defs: bool) -> Result<(), String> {
+    use elf::gnu_symver::{VerDefIterator, VerNeedIterator};
+    let e = if little { AnyEndian::Little } else { AnyEndian::Big };
+    let len = buf.len() as u64;
+    let rs: u64 = if defs { 20 } else { 16 };           // record size; the auxiliary records are 8 / 16 bytes
+    let mut off = start as u64; let mut cnt = count as u64;
+    let u16a = |o: u64| uval(little, &buf[o as usize..o as usize + 2]);
+    let u32a = |o: u64| uval(little, &buf[o as usize..o as usize + 4]);
+    let mut need = VerNeedIterator::new(e, Class::ELF64, count as u64, start as usize, buf);
+    let mut def = VerDefIterator::new(e, Class::ELF64, count as u64, start as usize, buf);
+    for k in 0..3 {
+        let fits = !buf.is_empty() && cnt > 0 && off + rs <= len && u16a(off) == 1;
+        if defs {
+            let got = def.next();
+            if got.is_some() != fits { fail!("VerDef #{}: yielded={} but a version-1 record {} at offset {} with count {}", k, got.is_some(), if fits { "fits" } else { "does not fit" }, off, cnt); }
+            if !fits { return Ok(()); }
+            let (vd, mut aux) = got.unwrap();
+            // Elf64_Verdef: vd_version u16, vd_flags u16, vd_ndx u16, vd_cnt u16, vd_hash u32, vd_aux u32, vd_next u32
+            let (flags, ndx, c, hash, auxo, next) = (u16a(off + 2), u16a(off + 4), u16a(off + 6), u32a(off + 8), u32a(off + 12), u32a(off + 16));
+            if vd.vd_flags as u64 != flags || vd.vd_ndx as u64 != ndx || vd.vd_cnt as u64 != c || vd.vd_hash as u64 != hash { fail!("VerDef #{} at offset {}: fields differ from the bytes", k, off); }
+            let a0 = off + auxo;
+            let afits = c > 0 && a0 + 8 <= len;
+            let ga = aux.next();
+            if ga.is_some() != afits { fail!("VerDef #{}: first auxiliary record expected at offset {} (vd_aux {}), yielded={}", k, a0, auxo, ga.is_some()); }
+            if let Some(a) = ga { if a.vda_name as u64 != u32a(a0) { fail!("VerDef #{}: auxiliary vda_name {} != bytes at {}", k, a.vda_name, a0); } }
+            cnt -= 1; off += next; if cnt > 0 && next == 0 { cnt = 0; }
+        } else {
+            let got = need.next();
+            if got.is_some() != fits { fail!("VerNeed #{}: yielded={} but a version-1 record {} at offset {} with count {}", k, got.is_some(), if fits { "fits" } else { "does not fit" }, off, cnt); }
+            if !fits { return Ok(()); }
+            let (vn, mut aux) = got.unwrap();
+            // Elf64_Verneed: vn_version u16, vn_cnt u16, vn_file u32, vn_aux u32, vn_next u32
+            let (c, file, auxo, next) = (u16a(off + 2), u32a(off + 4), u32a(off + 8), u32a(off + 12));
+            if vn.vn_cnt as u64 != c || vn.vn_file as u64 != file { fail!("VerNeed #{} at offset {}: fields differ from the bytes", k, off); }
+            let a0 = off + auxo;
+            let afits = c > 0 && a0 + 16 <= len;
+            let ga = aux.next();
+            if ga.is_some() != afits { fail!("VerNeed #{}: first auxiliary record expected at offset {} (vn_aux {}), yielded={}", k, a0, auxo, ga.is_some()); }
+            // Elf64_Vernaux: vna_hash u32, vna_flags u16, vna_other u16, vna_name u32, vna_next u32
+            if let Some(a) = ga { if a.vna_hash as u64 != u32a(a0) || a.vna_flags as u64 != u16a(a0 + 4) || a.vna_other as u64 != u16a(a0 + 6) || a.vna_name as u64 != u32a(a0 + 8) { fail!("VerNeed #{}: auxiliary record fields differ from the bytes at {}", k, a0); } }
+            cnt -= 1; off += next; if cnt > 0 && next == 0 { cnt = 0; }
+        }
+    }
+    Ok(())
+}
+
 include!("layout_oracle.rs");
